@@ -167,6 +167,17 @@ def simplify_parens(expression: exp.Expr, dialect: DialectType) -> exp.Expr:
         or (
             not isinstance(this, exp.Binary)
             and not (isinstance(this, (exp.Not, exp.Is)) and parent_is_predicate)
+            # NOT and the non-binary predicates (IN, BETWEEN, LIKE ...) bind looser than arithmetic and unary minus
+            and not (
+                isinstance(this, (exp.Not, exp.Predicate))
+                and (
+                    isinstance(parent, (exp.Neg, exp.BitwiseNot))
+                    or (
+                        isinstance(parent, exp.Binary)
+                        and not isinstance(parent, (exp.Connector, exp.Predicate))
+                    )
+                )
+            )
         )
         or (isinstance(this, exp.Add) and isinstance(parent, exp.Add))
         or (isinstance(this, exp.Mul) and isinstance(parent, exp.Mul))
